@@ -1,5 +1,6 @@
 """C11 Pretty-printed JSON-like data reads back as the same data."""
 import ast
+import enum
 import json
 
 import vf
@@ -52,6 +53,9 @@ def gen_scalar(rng, width=None):
         if k < 0.5:
             return 10 ** (width - 1) + rng.randrange(10 ** (width - 1)) if width > 1 else rng.randrange(10)
         return gen_str(rng, max(0, width - 2))
+    if k < 0.02:
+        # strings all the same: members of a (str, Enum) mix-in, a str subclass with its own str()
+        return rng.choice([Colour.RED, Colour.DARK, Loud("abc"), Loud("")])
     if k < 0.25:
         return gen_str(rng)
     if k < 0.5:
@@ -119,6 +123,8 @@ def gen(rng, d=0, jsonmode=True):
         # small ints and the keywords that are equal to them (never both in one dict), None
         extra = rng.choice([[0, 1], [True, False], [None, 1], [0, True], [False, 1, None], [2, 0]])
         keys = keys + extra[:rng.randint(1, len(extra))]
+    if rng.random() < 0.06:
+        keys = keys + [Colour.DARK, Loud("key")]
     rng.shuffle(keys)
     if rng.random() < 0.5:
         return {k: rng.choice([1, "v" * rng.randint(0, 12), None, 2.5, True, [], {}]) for k in keys}
@@ -152,18 +158,38 @@ def sort_key(k):
     return (0, k) if isinstance(k, (int, float)) else (1, k)
 
 
+class Colour(str, enum.Enum):
+    """the classic mix-in: members ARE strings (json.dumps writes "red")"""
+    RED = "red"
+    DARK = "dark blue"
+
+
+class Loud(str):
+    """a str subclass whose str() / format() differ from its characters"""
+
+    def __str__(self):
+        return "<<" + str.__str__(self).upper() + ">>"
+
+    def __format__(self, spec):
+        return "<<" + str.__str__(self).upper() + ">>"
+
+
 def typed(o):
     if isinstance(o, dict):
-        return ('d', sorted(((repr(k), typed(v)) for k, v in o.items())))
+        return ('d', sorted(((repr(str.__str__(k)) if isinstance(k, str) else repr(k), typed(v))
+                             for k, v in o.items())))
     if isinstance(o, list):
         return ('l', [typed(v) for v in o])
+    if isinstance(o, str):
+        return ('str', str.__str__(o) if type(o) is not str else o)
     return (type(o).__name__, repr(o))
 
 
 _PRINTERS = {}
 _PENDING = {}
 
-ROUTES = ("no_color", "no_color", "palette_object", "palette_class", "colors_conf", "conf_and_palette_class")
+ROUTES = ("no_color", "no_color", "palette_object", "palette_class", "colors_conf", "conf_and_palette_class",
+          "global_config")
 
 
 def nc_kwargs(route):
@@ -188,6 +214,23 @@ def judge(ctx, obj, jm, case):
     if pp is None or case.get("fresh_printer"):
         pp = _PRINTERS[jm] = PrettyPrinter(fmt_json=jm)
     try:
+        if case.get("route") == "global_config":
+            # the application-wide way: the program ran with colours (the printer was used), then colours are
+            # switched off for the whole application (what std_app_configure does for --color never) and
+            # results are asked for without any per-call argument
+            from ak import color as akcolor
+            akcolor.set_global_colors_config(ColorsConfig())
+            try:
+                str(pp(obj))
+                akcolor.set_global_colors_config(ColorsConfig(no_color=True))
+                txt_global = str(pp(obj))
+                lines_global = [str(l) for l in pp(obj)]
+            finally:
+                akcolor.set_global_colors_config(None)
+            ctx.count("no_colour_output_through_the_global_configuration")
+            if txt_global != str(pp(obj, no_color=True)) or "\n".join(lines_global) != txt_global:
+                ctx.violation("global-no-colour-output-differs-from-no-colour-output",
+                              {"global": txt_global[:150]}, case)
         if case.get("coloured_first"):
             str(pp(obj))
             ctx.count("coloured_rendering_before_no_color")
